@@ -150,7 +150,7 @@ Proof.
     unfold uc_end_loop; cbn [fn_body cf_uc_end]; rewrite exec_while; xstep;
     rewrite (load_str m b s _ p Hs) by lia; xstep;
     rewrite wrap_byte_chain by (apply nthb_lt256; exact H256);
-    rewrite nb2z, (cc_cont _ (nthb_lt256 s p H256)).
+    rewrite ?nb2z, (cc_cont _ (nthb_lt256 s p H256)).
   - destruct (Nat.eq_dec p (length s)) as [->|Hne].
     + rewrite nthb_end by lia. cbn. rewrite Nat.add_0_r. reflexivity.
     + rewrite skipn_cons_nthb in Hn by lia. cbn [skip_cont] in Hn.
@@ -229,4 +229,64 @@ Proof.
   pose proof (nthb_lt256 s (o + uc_end (skipn o s)) H256) as Hc.
   rewrite (cc_z0i _ Hc). unfold uc_next. rewrite nthb_skipn.
   destruct (nthb s (o + uc_end (skipn o s)) =? 0)%N; xstep; do 3 f_equal; lia.
+Qed.
+
+(* ------------------------------------------------------------------ uc_beg, uc_prev *)
+(* the bytes between beg (offset ob) and s (offset o), nearest first: the zipper of UcDefs.uc_beg *)
+Definition pre_of (s : bytes) (ob o : nat) : bytes := rev (firstn (o - ob) (skipn ob s)).
+Lemma firstn_snoc (l : bytes) k : (k < length l)%nat -> firstn (S k) l = firstn k l ++ [nthb l k].
+Proof.
+  revert l; induction k as [|k IH]; intros [|x l] H; cbn in H; try lia; [reflexivity|].
+  rewrite (firstn_cons (S k)), (firstn_cons k), IH by lia. reflexivity.
+Qed.
+Lemma pre_of_S s ob o : (ob < o <= length s)%nat -> pre_of s ob o = nthb s (o - 1) :: pre_of s ob (o - 1).
+Proof.
+  intro H. unfold pre_of. replace (o - ob)%nat with (S (o - 1 - ob)) by lia.
+  rewrite firstn_snoc by (rewrite skipn_length; lia). rewrite rev_app_distr. cbn [rev app].
+  rewrite nthb_skipn. do 2 f_equal. lia.
+Qed.
+Lemma pre_of_0 s ob : pre_of s ob ob = [].
+Proof. unfold pre_of. rewrite Nat.sub_diag. reflexivity. Qed.
+
+Definition uc_beg_loop : stmt := match fn_body cf_uc_beg with SSeq w _ => w | _ => SSkip end.
+
+Lemma uc_beg_loop_ok call m b s ob : str_at m b s -> bytes_lt256 s ->
+  forall k o fuel, (o - ob = k)%nat -> (ob <= o <= length s)%nat -> (k < fuel)%nat ->
+  exec call fuel uc_beg_loop (mkst [VPtr b (Z.of_nat ob); VPtr b (Z.of_nat o)] m)
+  = ONormal (mkst [VPtr b (Z.of_nat ob); VPtr b (Z.of_nat (o - uc_beg (pre_of s ob o) (nthb s o)))] m).
+Proof.
+  intros Hs H256. induction k as [|k IH]; intros o fuel Hk Ho Hf; (destruct fuel as [|fuel]; [lia|]);
+    unfold uc_beg_loop; cbn [fn_body cf_uc_beg]; rewrite exec_while; xstep; cbn [ptr_cmp Nat.eqb]; rewrite Nat.eqb_refl; xstep.
+  - assert (o = ob) as -> by lia. rewrite pre_of_0. cbn [uc_beg]. rewrite Nat.sub_0_r.
+    destruct (Z.ltb_spec (Z.of_nat ob) (Z.of_nat ob)); [lia|]. reflexivity.
+  - destruct (Z.ltb_spec (Z.of_nat ob) (Z.of_nat o)); [|lia]. xstep.
+    xload Hs H256 o. rewrite (cc_cont _ (nthb_lt256 s o H256)).
+    rewrite pre_of_S by lia. cbn [uc_beg].
+    destruct (is_cont (nthb s o)); xstep; [|rewrite Nat.sub_0_r; reflexivity].
+    replace (Z.of_nat o + -1) with (Z.of_nat (o - 1)) by lia.
+    change (SWhile _ _) with uc_beg_loop. rewrite (IH (o - 1)%nat fuel) by lia.
+    rewrite ?nb2z. do 5 f_equal. lia.
+Qed.
+
+Theorem tr_uc_beg m b s ob o d fuel :
+  str_at m b s -> bytes_lt256 s -> (ob <= o <= length s)%nat -> (length s < fuel)%nat ->
+  callf cprog fuel (S d) F_uc_beg [VPtr b (Z.of_nat ob); VPtr b (Z.of_nat o)] m
+  = Ok (VPtr b (Z.of_nat (o - uc_beg (pre_of s ob o) (nthb s o))), m).
+Proof.
+  intros Hs H256 Ho Hf. enter F_uc_beg cf_uc_beg. xstep.
+  change (SWhile _ _) with uc_beg_loop.
+  rewrite (uc_beg_loop_ok _ m b s ob Hs H256 _ o fuel eq_refl) by lia. xstep. reflexivity.
+Qed.
+
+Theorem tr_uc_prev m b s ob o d fuel :
+  str_at m b s -> bytes_lt256 s -> (ob <= o <= length s)%nat -> (length s < fuel)%nat ->
+  callf cprog fuel (S (S d)) F_uc_prev [VPtr b (Z.of_nat ob); VPtr b (Z.of_nat o)] m
+  = Ok (VPtr b (Z.of_nat (o - uc_prev (pre_of s ob o))), m).
+Proof.
+  intros Hs H256 Ho Hf. enter F_uc_prev cf_uc_prev. xstep. cbn [ptr_cmp]. rewrite Nat.eqb_refl. xstep.
+  destruct (Z.eqb_spec (Z.of_nat o) (Z.of_nat ob)) as [E|E]; xstep.
+  - assert (o = ob) as -> by lia. rewrite pre_of_0. cbn [uc_prev]. rewrite Nat.sub_0_r. reflexivity.
+  - replace (Z.of_nat o + -1 * 1) with (Z.of_nat (o - 1)) by lia.
+    rewrite (tr_uc_beg m b s ob (o - 1) d fuel Hs H256) by lia. xstep.
+    rewrite (pre_of_S s ob o) by lia. cbn [uc_prev]. do 3 f_equal. lia.
 Qed.
